@@ -84,6 +84,7 @@ func (p *SliceLossIndication) Unmarshal(rawPacket []byte) error {
 	}
 
 	p.SenderSSRC = binary.BigEndian.Uint32(rawPacket[headerLength:])
+	p.SLI = nil
 	p.MediaSSRC = binary.BigEndian.Uint32(rawPacket[headerLength+ssrcLength:])
 	for i := headerLength + sliOffset; i < (headerLength + 4*int(h.Length)); i += 4 {
 		sli := binary.BigEndian.Uint32(rawPacket[i:])
